@@ -646,7 +646,14 @@ func (e *Engine) verifyFunction(key string, ct *Contract) (res *FuncResult) {
 			vc.obls = append(vc.obls, &Obligation{Name: fmt.Sprintf("%s/VACUITY/exit", key), Kind: "VACUITY", Fn: key, Prefix: len(vc.lines), Goal: not(or(gs...)), Expect: "notunsat", vc: vc, Tags: ct.Tags, Desc: "some normal exit is reachable under the hypotheses"})
 		}
 	}
-	if !anyRet && !ct.NoReturn && len(ct.Ensures) > 0 {
+	provedEnsures := 0
+	for _, en := range ct.Ensures {
+		if !en.Assumed {
+			provedEnsures++
+		}
+	}
+	if !anyRet && !ct.NoReturn && provedEnsures > 0 {
+		// (a body whose every path ends behind a cut proves no postcondition; clauses marked `assumes` are not proved anyway)
 		vc.errs = append(vc.errs, fmt.Sprintf("%s: no reachable return", key))
 	}
 	for ai, as := range ct.Asserts {
